@@ -38,7 +38,8 @@ let parse_meth = function
   | "flush" -> MFlush | "close" -> MClose | s -> raise (Parse ("meth " ^ s))
 let parse_pres = function
   | "pending" -> RPending | "final" -> RFinal | "item" -> RItem
-  | "err" -> RFinal (* the inner sink returned Ready(Err): a completed call for the adapter *) | s -> raise (Parse ("pres " ^ s))
+  | "err" -> RFinal (* the inner sink returned Ready(Err): a completed call for the adapter *)
+  | "lastitem" -> RItem (* an item after which the inner stream's size_hint is exactly 0 *) | s -> raise (Parse ("pres " ^ s))
 
 let parse_call toks : call =
   match toks with
@@ -145,7 +146,8 @@ type proj = { reports : rlevel; stats : bool; ctxs : bool; bools : bool; recs : 
 
 let proj_of = function
   | "C04" -> { reports = RFull; stats = false; ctxs = false; bools = false; recs = false }
-  | "C01" | "C03" | "C09" -> { reports = RCore; stats = false; ctxs = false; bools = false; recs = false }
+  | "C09" -> { reports = RFull; stats = false; ctxs = false; bools = false; recs = false }
+  | "C01" | "C03" -> { reports = RCore; stats = false; ctxs = false; bools = false; recs = false }
   | "C02" -> { reports = RIds; stats = false; ctxs = false; bools = false; recs = false }
   | "C05" -> { reports = RCore; stats = false; ctxs = true; bools = false; recs = false }
   | "C06" | "C10" | "C13" | "C14" | "C15" -> { reports = RFull; stats = false; ctxs = true; bools = true; recs = false }
